@@ -515,6 +515,12 @@ class Parser:
                 self.raise_syntax_error_known_range(f"invalid {kind} literal", number, nxt)
         return ast.literal_eval(number.string)
 
+    def pattern_string(self, node: ast.expr) -> ast.expr:
+        """A string literal used as a pattern (or as a key of a mapping pattern): a path literal is a call, not a literal."""
+        if not isinstance(node, ast.Constant | ast.JoinedStr):
+            self.raise_syntax_error_known_location("patterns may only match literals and attribute lookups", node)
+        return node
+
     def ensure_real(self, number: TokenInfo) -> float | int:
         value = self.number_value(number)
         if not isinstance(value, float | int):
